@@ -32,3 +32,49 @@ class FileModel(object):
 
 def make_file(I, name='file'):
     return Opaque('file', FileModel(I.ctx, name))
+
+
+CONTENT = z3.Function('file_content', z3.IntSort(), z3.IntSort(), z3.IntSort(), z3.StringSort())   # (file id, pos, n) -> decoded text
+
+
+def file_attr(I, obj, name):
+    """seek / read / close of a modelled binary file (A-IO): read(n) after seek(p) returns bytes[p : min(p+n, size)]"""
+    from . import pybuiltins as PB
+    from .interp import raise_py
+    fm = obj.payload
+    if not isinstance(fm, FileModel):
+        return PB.NOATTR
+    if name == 'seek':
+        def seek(I_, a, k):
+            fm.pos = a[0]
+            return None
+        return Builtin('file.seek', seek)
+    if name == 'read':
+        def read(I_, a, k):
+            n = I_.z(a[0], 'int')
+            p = I_.z(fm.pos, 'int')
+            I_.ctx.use_axiom('A-IO:read(n) after seek(p) returns bytes[p:min(p+n,size)] (n >= 0)')
+            if I_.ctx.branch(n < 0):
+                raise Unsupported('read with a negative count (reads to the end of the file)')
+            avail = z3.If(fm.size - p < 0, z3.IntVal(0), fm.size - p)
+            ln = z3.If(n < avail, n, avail)
+            txt = CONTENT(z3.IntVal(id(fm) % 100000), p, n)
+            I_.ctx.assume(z3.Length(txt) == ln)
+            # consistency of overlapping reads from the same position: the shorter one is a prefix of the longer one
+            for (p0, n0, t0) in getattr(fm, 'reads', []):
+                I_.ctx.assume(z3.Implies(z3.And(p0 == p, n0 <= n), z3.PrefixOf(t0, txt)))
+                I_.ctx.assume(z3.Implies(z3.And(p0 == p, n <= n0), z3.PrefixOf(txt, t0)))
+            fm.reads = getattr(fm, 'reads', []) + [(p, n, txt)]
+            fm.pos = I_.mk(p + ln, 'int')
+            return Opaque('bytes', txt)
+        return Builtin('file.read', read)
+    if name == 'close':
+        return Builtin('file.close', lambda I_, a, k: None)
+    return PB.NOATTR
+
+
+def bytes_attr(I, obj, name):
+    from . import pybuiltins as PB
+    if obj.tag == 'bytes' and name == 'decode':
+        return Builtin('bytes.decode', lambda I_, a, k: I_.mk(obj.payload, 'str'))
+    return PB.NOATTR
